@@ -26,6 +26,8 @@ Definition A t i h := mkaspec t i h.
 """
 
 KINDS = ["function", "staticmethod", "property", "value"]
+# plain values that are falsy: a body may bind a generated name to any of them
+FALSY = {"none": None, "zero": 0, "false": False, "empty_str": "", "empty_tuple": ()}
 COLL = {"list": "CSeq", "list_nested": "CSeq", "klist": "CSeq", "rawlist": "CSeq",
         "dict": "CMap", "dict_nested": "CMap", "set": "CSet", "kset": "CSet"}
 SCALAR_TYS = ["int", "str", "nested", "any"]
@@ -137,6 +139,8 @@ def occupant(name, kind):
         return classmethod(lambda cls, *a, **k: None)
     if kind == "property":
         return property(lambda self: 5)
+    if kind in FALSY:
+        return FALSY[kind]
     return 7
 
 
@@ -209,7 +213,7 @@ def classify(name, obj, before, uid):
             and obj.__func__ is before[name].__func__:
         return f"W KClassm {uid[name]}"
     for other, o in before.items():
-        if obj is o and other != name and not isinstance(obj, (int, str, type(None))):
+        if obj is o and other != name and not isinstance(obj, (int, str, tuple, type(None))):
             return f"U {member_kind(o)} {uid[other]}"
     if isinstance(obj, MethodDescriptor):
         tag = DESC_CLASSES.get(type(obj).__name__)
@@ -474,12 +478,17 @@ def expected_generated(desc):
     return [n for n in cls.__dict__ if n not in before and n not in ("__spec_class__", "__dataclass_fields__", "__annotations__")]
 
 
-def variants(desc, rng, per_name=None):
+def variants(desc, rng, per_name=None, falsy=None):
+    """the class with each generated name occupied in its own body: `per_name` of the four
+    callable/truthy kinds (None: all four) and `falsy` of the five falsy plain values (None: all five).
+    __new__ is only occupied by truthy objects (the lazy hook tests `if orig_new:`; see docs/C16.md)."""
     out = []
     for n in expected_generated(desc) + ["__new__"]:
         kinds = KINDS if per_name is None else rng.sample(KINDS, per_name)
         if n == "__new__":
             kinds = ["function"] if per_name is not None else ["function", "staticmethod", "classmethod", "property", "value"]
+        else:
+            kinds = kinds + (list(FALSY) if falsy is None else rng.sample(list(FALSY), falsy))
         for kd in kinds:
             d = json.loads(json.dumps(desc))
             d["occupied"] = [{"name": n, "kind": kd}]
@@ -491,22 +500,25 @@ def variants(desc, rng, per_name=None):
 def generate(rng, tier):
     quick = tier == "quick"
     cases = []
-    for d in FIXED:
+    for j, d in enumerate(FIXED):
         d = dict(d, occupied=[], inst=True)
         cases.append((d, "fixed"))
-        cases += variants(d, rng)
+        # every generated name (scalar, element, top-level, dunder) x 4 kinds x falsy plain values
+        # (all five for the first fixed class in quick, for every fixed class in thorough)
+        cases += variants(d, rng, falsy=None if (j == 0 or not quick) else 1)
     # random classes; every generated name occupied in 1 (quick) / all 4 (thorough) ways
     for i in range(40 if quick else 400):
         d = random_desc(rng)
         cases.append((d, "random"))
         if i < (12 if quick else 120):
-            cases += variants(d, rng, per_name=1 if quick else None)
+            cases += variants(d, rng, per_name=1 if quick else None,
+                              falsy=(1 if i < 6 else 0) if quick else 2)
     # occupied pairs
     for i in range(20 if quick else 200):
         d = random_desc(rng, 3)
         g = expected_generated(d)
         if len(g) >= 2:
-            d["occupied"] = [{"name": n, "kind": rng.choice(KINDS + ["classmethod"])} for n in rng.sample(g, 2)]
+            d["occupied"] = [{"name": n, "kind": rng.choice(KINDS + ["classmethod"] + list(FALSY))} for n in rng.sample(g, 2)]
             cases.append((d, "occupied2"))
     # singular / plural collisions found with the real inflect
     same, withname = collision_words()
@@ -672,8 +684,8 @@ def main(tier, replay=None):
                            "first_use_lookups": sum(len(o["uses"]) for o in obss), **found},
         "evaluations": len(cases), "distinct_nontrivial": min(len(distinct), nontrivial),
         "rule": "case = (attributes with type/declaration form, decorator arguments, names occupied in the body, instantiated?); "
-                "fixed classes and random classes x every generated name occupied as function/staticmethod/property/value "
-                "(quick: one kind per name for random classes), occupied pairs, and colliding word pairs found with the real "
+                "fixed classes and random classes x every generated name occupied as function/staticmethod/property/truthy value "
+                "and as a falsy plain value None/0/False/''/() (quick: all five for the first fixed class, one otherwise; one kind per name for random classes), occupied pairs, and colliding word pairs found with the real "
                 "inflect; distinct = distinct descriptions; nontrivial = at least one generated entry compared or decoration raised",
         "samples": [descs[0], descs[len(descs) // 2], descs[-1]],
         "exhaustive": False,
